@@ -1,4 +1,5 @@
 #!/bin/sh
-# tools/savebenign.sh <set> <rN> "<what>" PROP...: register a sub-agent refactoring as a benign self-test case
+# tools/savebenign.sh <set dir under /verif (benign|benign2)/area> <rN> "<what>" PROP...: register a sub-agent refactoring as a benign self-test case
 set_=$1; r=$2; what=$3; shift 3
-for p in "$@"; do cp /verif/benign/$set_/$r.diff /verif/selftest/$p/b-agent-$set_-$r.patch; printf '{"expect": "silent", "what": "sub-agent refactoring: %s"}\n' "$what" > /verif/selftest/$p/b-agent-$set_-$r.json; done
+tag=$(echo $set_ | tr '/' '-')
+for p in "$@"; do cp /verif/$set_/$r.diff /verif/selftest/$p/b-agent-$tag-$r.patch; printf '{"expect": "silent", "what": "sub-agent refactoring: %s"}\n' "$what" > /verif/selftest/$p/b-agent-$tag-$r.json; done
